@@ -8,7 +8,7 @@ CHECK = {'title': 'hwmon entries bind to the device the user named, or fail clea
  'level': 'exploration',
  'technique': 'exhaustive enumeration of fake hwmon trees x chip enumeration orders x configuration entries through the real hwmon.GetChips + '
               'internal.InitializeObjects, compared with an independent reference binder (paths and values read through the bound objects)',
- 'rule': 'per tree additionally: the one-entry-per-chip configuration plus ONE entry naming a non-existing device (unknown platform / missing index) placed first or last: start-up must fail naming it. tree = 1..3 chips (4 in thorough); a chip exposes fan channels = any subset of {1,2,3} (fanN_input, pwmN, pwmN_enable) and temperatures '
+ 'rule': 'bus families (second run): four chips of one driver that differ only in bus number/address, for scsi, hid, isa, pci and acpi+virtual buses; each chip in turn named by its full lm-sensors name (plain and ^anchored$) x sensor index 1..3 / fan by index or rpmChannel x all 24 enumeration orders, same oracle. Main run, per tree additionally: the one-entry-per-chip configuration plus ONE entry naming a non-existing device (unknown platform / missing index) placed first or last: start-up must fail naming it. tree = 1..3 chips (4 in thorough); a chip exposes fan channels = any subset of {1,2,3} (fanN_input, pwmN, pwmN_enable) and temperatures '
          '1..3 each absent / with input / feature without input file. Trees: 1 chip: all 216 shapes; 2 chips: all 64 x all 64 fan/temp-input subsets '
          '(thorough: also the 152 no-input shapes of the named chip x 64); 3 chips: named chip all 64 shapes x the two others from a catalogue of 4 '
          '(thorough 8) shapes; 4 chips (thorough): named chip all 64 x others from the catalogue of 4. For every tree ALL permutations of the chip '
@@ -27,4 +27,5 @@ CHECK = {'title': 'hwmon entries bind to the device the user named, or fail clea
  'level_text': 'complete enumeration of the stated finite space of (hwmon tree, enumeration order, entry) on the real discovery and binding code',
  'level_note': 'bounded: channels/indices 1..3 (+4 as the missing one), at most 4 chips, shapes of the not-named chips from a catalogue for 3 and 4 chips; '
                'the `fan2go fan` CLI lookup (cmd/fan getFan, which ignores the error of the matching function) is not exercised',
- 'runs': [{'pkg': 'cmd/sensor', 'test': 'TestVX_C17', 'shards_quick': 16, 'shards_thorough': 16}]}
+ 'runs': [{'pkg': 'cmd/sensor', 'test': 'TestVX_C17', 'shards_quick': 16, 'shards_thorough': 16},
+          {'pkg': 'cmd/sensor', 'test': 'TestVX_C17bus', 'shards_quick': 4, 'shards_thorough': 4}]}
